@@ -50,6 +50,9 @@ class G:
     def cond(self, e):
         a = self.atom(e)
         if a and a[1] == "bool": return a[0]
+        if isinstance(e, ast.Compare) and len(e.ops) > 1:          # a < b <= c  ≡  a < b and b <= c (the operands here have no side effects)
+            terms = [e.left] + list(e.comparators)
+            return "(" + " && ".join(self.cond(ast.Compare(left=terms[i], ops=[e.ops[i]], comparators=[terms[i + 1]], lineno=e.lineno, col_offset=e.col_offset)) for i in range(len(e.ops))) + ")"
         if isinstance(e, ast.Compare) and len(e.ops) == 1:
             op, l, r = e.ops[0], e.left, e.comparators[0]
             if isinstance(op, (ast.Is, ast.IsNot)):
